@@ -234,8 +234,8 @@ def _process(unit, tpath, repo):
                 raise Inconclusive("lost anchor: fn %s :: %s" % (f, " :: ".join(path)))
             names, sig = fn_params(src, it)
             cur_fn = {
-                "unit": unit.name, "file": f, "path": path, "name": path[-1].split()[1],
-                "qual": "::".join(p.split()[-1] for p in path),
+                "unit": unit.name, "file": f, "path": path, "name": kv.get("as") or path[-1].split()[1], "real_name": path[-1].split()[1],
+                "qual": "::".join([[w for w in p.split() if not w.startswith("#")][-1] for p in path][:-1] + [kv.get("as") or path[-1].split()[1]]),
                 "props": [p for p in kv.get("props", "").split(",") if p],
                 "implicit": [p for p in kv.get("implicit", "").split(",") if p],
                 "rules": [r for r in kv.get("rules", "").split(",") if r],
